@@ -33,7 +33,9 @@ RULE = ("operation sequences (text/binary/ping/pong/close, sends after close; th
         "random small, 100 KiB..3 MiB} x segmentations (one shot, byte-at-a-time, random cuts, cuts inside every header) "
         "x peer limits (max_msg_size 0 / len+1 / len, decode_text); concurrent: 2-4 sender tasks x executor completion "
         "order x cancellations, and scripts acting several times per loop iteration (gather of big+small compressed sends, "
-        "cancel-then-send); queue: consumer tasks with receives cancelled in the iteration a frame arrives. Non-trivial = at least one message was delivered; distinct by hash of "
+        "cancel-then-send; 270-600 KB uncompressed messages against a write-pausing transport with a concurrent sender or a "
+        "cancellation); queue: consumer tasks with receives cancelled in the iteration a frame arrives, and read flow "
+        "control (queue limits 1..200, messages of 2 x limit and more, protocol stub honouring pause/resume). Non-trivial = at least one message was delivered; distinct by hash of "
         "(config, operations, segmentation / history, observable).")
 TRUSTED = [
     "translator/gen_wscodec.py (header length switch, bits, struct layouts, send_frame branch tests, RSV1, flush mode, "
@@ -1564,7 +1566,7 @@ def run_queue(case):
     loop = VLoop()
     asyncio.set_event_loop(loop)
     inline_executor(loop)
-    log, got = [], []
+    log, got, flowlog = [], [], []
     try:
         with _Backend(case.get("backend", "toy")):
             tr, rnd = Tr(), _Rnd()
@@ -1601,6 +1603,7 @@ def run_queue(case):
 
             def feed(m):
                 log.append("F/" + json.dumps(canon_msg(m)).encode().hex())
+                flowlog.append(f"F:{int(m.size)}")
                 return o_feed(m)
             q.feed_data = feed
 
@@ -1615,6 +1618,7 @@ def run_queue(case):
                     log.append("X")
                     return
                 log.append("T")
+                flowlog.append("P")
                 got.append(canon_msg(m))
 
             state = {"task": None, "next": 0, "half": None}
@@ -1683,11 +1687,12 @@ def run_queue(case):
             left = len(q._buffer)
             exc = rd._exc
             paused_end = bool(proto._reading_paused)
+            qsize = int(q._size)
     finally:
         asyncio.set_event_loop(None)
         loop.close()
     return {"got": got, "log": log, "left": left, "error": repr(exc) if exc else None, "paused_end": paused_end,
-            "undelivered": state.get("undelivered", 0), "flow": flow}
+            "undelivered": state.get("undelivered", 0), "flow": flow, "flowlog": flowlog, "qsize": qsize}
 
 
 def judge_queue(case, r):
@@ -1789,6 +1794,16 @@ def suite_queue(ctx, exe):
             lines.append("QUEUE " + " ".join(r["log"]))
             runs.append((case, r))
     if lines:
+        # read flow control: the pause flag and size counter the sizes-only model predicts for this feed / read sequence
+        fl = [(c, r) for c, r in runs if c.get("qlimit")]
+        if fl:
+            answers = run_model_parallel(exe, ["FLOW " + str(2 * c["qlimit"]) + " " + " ".join(r["flowlog"]) for c, r in fl])
+            for (c, r), ans in zip(fl, answers):
+                want = f"{int(r['paused_end'])};{r['qsize']};{r['left']}"
+                if ans != want:
+                    ctx.disagreement("queue", c, {"paused;size;buffered": ans}, {"paused;size;buffered": want, "events": r["flowlog"][:40]})
+                else:
+                    ctx.traces_validated += 1
         for (case, r), ans in zip(runs, run_model_parallel(exe, lines)):
             f = dict(x.split(":", 1) for x in ans.split(";") if ":" in x)
             g = [] if f.get("G", "-") == "-" else [json.loads(bytes.fromhex(x)) for x in f["G"].split(",")]
